@@ -128,13 +128,8 @@ def rule_mergeguard(ctx, classes=SKETCH_CLASSES):
         agg(ctx, "guard-first", m, raises[0].node if raises else m.node, "refusal paths of %s" % m.qualname,
             "the compatibility guard comes first: nothing is computed into the sketch or written before a refusal",
             res or [(False, "merge() never refuses", [])])
-        res = []
-        for k in kcalls:
-            pre = on_path(w.events, k)
-            eff = [x for x in pre if x.kind in ("store", "slicestore", "attrstore", "otherstore", "delete")]
-            res.append((not eff, "the kernel call is the first write" if not eff else "`%s` precedes the merge kernel" % unparse(eff[0].node, 60),
-                        fact_strs(k)))
-        agg(ctx, "guard-first", m, site, "writes before the kernel in %s" % m.qualname, "nothing is written between the guard and the merge kernel", res)
+        # (a write between the guard and the kernel on the accepting path is no concern of this property: only what precedes a
+        # refusal is -- the obligation above)
         # ---- guard-order (count-min): attributes a linear sketch lacks are read only once the counter types are known to agree
         if cls.module.short == "countmin":
             base_attrs = {d.attr for d in init_attr_defs(F.ctor(ctx.model.cls("countmin", "CountMinLinear")))}
@@ -1674,6 +1669,11 @@ def rule_state_owner(ctx, classes=SKETCH_CLASSES, methods=None):
                         for obj in ("self", "other"):
                             a = self_attr(e, obj)
                             if a in TABLE_ATTRS:
+                                if isinstance(n, ast.AugAssign) and obj == "self" and a == "n_added_records":
+                                    # `self.n_added_records += ...` on a NumPy array adds in place (the name is re-bound to the same
+                                    # object): a write, not a rebinding; that the bookkeeping counters are summed exactly once is
+                                    # rule sumcounters'
+                                    continue
                                 sites.append((n, obj, a))
                 if isinstance(n, ast.Call) and dotted(n.func) == "setattr" and n.args and isinstance(n.args[0], ast.Name) and n.args[0].id in ("self", "other"):
                     sites.append((n, n.args[0].id, unparse(n.args[1]) if len(n.args) > 1 else "?"))
